@@ -75,3 +75,232 @@ pub open spec fn tbl_ok(defs: Defs) -> bool {
     &&& forall|i: usize| list_tbl_defined(defs, i) ==> lt_ok(#[trigger] list_tbl(defs, i))
     &&& forall|i: usize| set_tbl_defined(defs, i) ==> lt_ok(#[trigger] set_tbl(defs, i))
 }
+
+// ---------------------------------------------------------------- the positive fold (C05)
+// list_formula_is_empty first folds all positive tuple atoms of a clause into ONE shape
+// (prefix_items, items). What that shape must be: position by position the intersection of the
+// atoms' item types (an atom shorter than the position contributes its rest type), the rest type
+// is the intersection of the rest types, and the prefix is as long as the longest atom.
+spec fn chain_atoms(c: Option<Rc<Conjunction>>) -> Seq<Atom>
+    decreases c
+{
+    match c {
+        None => Seq::empty(),
+        Some(n) => seq![n.atom] + chain_atoms(n.next),
+    }
+}
+pub open spec fn item_at(lt: ListAtomic, i: int) -> Rc<SemType> {
+    if 0 <= i < lt.prefix_items@.len() { lt.prefix_items@[i] } else { lt.items }
+}
+pub open spec fn items_mem(defs: Defs, atoms: Seq<Atom>, i: int, v: Val) -> bool {
+    forall|k: int| 0 <= k < atoms.len() ==> mem(*item_at(lt_of(defs, #[trigger] atoms[k]), i), v)
+}
+pub open spec fn rest_mem(defs: Defs, atoms: Seq<Atom>, v: Val) -> bool {
+    forall|k: int| 0 <= k < atoms.len() ==> mem(*lt_of(defs, #[trigger] atoms[k]).items, v)
+}
+pub open spec fn max_len(defs: Defs, atoms: Seq<Atom>) -> nat
+    decreases atoms.len()
+{
+    if atoms.len() == 0 { 0 } else {
+        let m = max_len(defs, atoms.drop_last());
+        let l = lt_of(defs, atoms.last()).prefix_items@.len();
+        if l > m { l } else { m }
+    }
+}
+pub open spec fn rcmem(t: Rc<SemType>, v: Val) -> bool { mem(*t, v) }
+pub open spec fn good(t: Rc<SemType>) -> bool { wf(*t) && flat(*t) }
+pub open spec fn goods(s: Seq<Rc<SemType>>) -> bool { forall|i: int| 0 <= i < s.len() ==> good(#[trigger] s[i]) }
+pub open spec fn lt_good(lt: ListAtomic) -> bool { goods(lt.prefix_items@) && good(lt.items) }
+// hypothesis of the semantic clauses: the component types stored in the tables are well-formed and format-free
+pub open spec fn tbl_good(defs: Defs) -> bool {
+    &&& forall|i: usize| list_tbl_defined(defs, i) ==> lt_good(#[trigger] list_tbl(defs, i))
+    &&& forall|i: usize| set_tbl_defined(defs, i) ==> lt_good(#[trigger] set_tbl(defs, i))
+}
+// positions < upto already intersected with atom d, the others not yet
+#[verifier::opaque]
+pub open spec fn pre_sem(defs: Defs, atoms: Seq<Atom>, pre: Seq<Rc<SemType>>, upto: int, d: Atom) -> bool {
+    forall|j: int, v: Val| 0 <= j < pre.len() ==> #[trigger] mem(*pre[j], v)
+        == (items_mem(defs, atoms, j, v) && (j < upto ==> mem(*item_at(lt_of(defs, d), j), v)))
+}
+#[verifier::opaque]
+pub open spec fn fold_ok(defs: Defs, atoms: Seq<Atom>, pre: Seq<Rc<SemType>>, items: Rc<SemType>) -> bool {
+    &&& pre.len() == max_len(defs, atoms)
+    &&& goods(pre) && good(items)
+    &&& forall|j: int, v: Val| 0 <= j < pre.len() ==> #[trigger] mem(*pre[j], v) == items_mem(defs, atoms, j, v)
+    &&& forall|v: Val| #[trigger] mem(*items, v) == rest_mem(defs, atoms, v)
+}
+spec fn done_atoms(pos: Option<Rc<Conjunction>>, p: Option<Rc<Conjunction>>) -> Seq<Atom> {
+    chain_atoms(pos).take(chain_atoms(pos).len() - chain_atoms(p).len())
+}
+spec fn split_ok(pos: Option<Rc<Conjunction>>, p: Option<Rc<Conjunction>>) -> bool {
+    chain_atoms(p).len() <= chain_atoms(pos).len() && chain_atoms(pos) == done_atoms(pos, p) + chain_atoms(p)
+}
+
+pub broadcast proof fn lemma_items_mem_push(defs: Defs, atoms: Seq<Atom>, d: Atom, i: int, v: Val)
+    ensures #[trigger] items_mem(defs, atoms.push(d), i, v) == (items_mem(defs, atoms, i, v) && mem(*item_at(lt_of(defs, d), i), v))
+{
+    let a2 = atoms.push(d);
+    if items_mem(defs, a2, i, v) {
+        assert(a2[atoms.len() as int] == d);
+        assert forall|k: int| 0 <= k < atoms.len() implies mem(*item_at(lt_of(defs, #[trigger] atoms[k]), i), v) by { assert(a2[k] == atoms[k]); }
+    }
+    if items_mem(defs, atoms, i, v) && rcmem(item_at(lt_of(defs, d), i), v) {
+        assert forall|k: int| 0 <= k < a2.len() implies mem(*item_at(lt_of(defs, #[trigger] a2[k]), i), v) by {
+            if k < atoms.len() { assert(a2[k] == atoms[k]); } else { assert(a2[k] == d); }
+        }
+    }
+}
+pub broadcast proof fn lemma_rest_mem_push(defs: Defs, atoms: Seq<Atom>, d: Atom, v: Val)
+    ensures #[trigger] rest_mem(defs, atoms.push(d), v) == (rest_mem(defs, atoms, v) && mem(*lt_of(defs, d).items, v))
+{
+    let a2 = atoms.push(d);
+    if rest_mem(defs, a2, v) {
+        assert(a2[atoms.len() as int] == d);
+        assert forall|k: int| 0 <= k < atoms.len() implies mem(*lt_of(defs, #[trigger] atoms[k]).items, v) by { assert(a2[k] == atoms[k]); }
+    }
+    if rest_mem(defs, atoms, v) && rcmem(lt_of(defs, d).items, v) {
+        assert forall|k: int| 0 <= k < a2.len() implies mem(*lt_of(defs, #[trigger] a2[k]).items, v) by {
+            if k < atoms.len() { assert(a2[k] == atoms[k]); } else { assert(a2[k] == d); }
+        }
+    }
+}
+pub broadcast proof fn lemma_max_len_push(defs: Defs, atoms: Seq<Atom>, d: Atom)
+    ensures #[trigger] max_len(defs, atoms.push(d)) == (if lt_of(defs, d).prefix_items@.len() > max_len(defs, atoms) { lt_of(defs, d).prefix_items@.len() } else { max_len(defs, atoms) })
+{
+    assert(atoms.push(d).drop_last() =~= atoms);
+    assert(atoms.push(d).last() == d);
+}
+// at or beyond the longest prefix every atom contributes its rest type
+pub broadcast proof fn lemma_items_beyond(defs: Defs, atoms: Seq<Atom>, i: int, v: Val)
+    requires i >= max_len(defs, atoms)
+    ensures #[trigger] items_mem(defs, atoms, i, v) == rest_mem(defs, atoms, v)
+    decreases atoms.len()
+{
+    if atoms.len() > 0 {
+        let a = atoms.drop_last();
+        let d = atoms.last();
+        assert(atoms =~= a.push(d));
+        lemma_max_len_push(defs, a, d);
+        lemma_items_beyond(defs, a, i, v);
+        lemma_items_mem_push(defs, a, d, i, v);
+        lemma_rest_mem_push(defs, a, d, v);
+    }
+}
+pub broadcast proof fn lemma_fold_empty(defs: Defs, i: int, v: Val)
+    ensures #[trigger] items_mem(defs, Seq::empty(), i, v), #[trigger] rest_mem(defs, Seq::empty(), v), max_len(defs, Seq::empty()) == 0
+{}
+pub broadcast proof fn lemma_goods_push(s: Seq<Rc<SemType>>, t: Rc<SemType>)
+    requires goods(s), good(t)
+    ensures #[trigger] goods(s.push(t))
+{
+    assert forall|i: int| 0 <= i < s.push(t).len() implies good(#[trigger] s.push(t)[i]) by { if i < s.len() { assert(s.push(t)[i] == s[i]); } else { assert(s.push(t)[i] == t); } }
+}
+pub broadcast proof fn lemma_goods_update(s: Seq<Rc<SemType>>, k: int, t: Rc<SemType>)
+    requires goods(s), good(t), 0 <= k < s.len()
+    ensures #[trigger] goods(s.update(k, t))
+{
+    assert forall|i: int| 0 <= i < s.update(k, t).len() implies good(#[trigger] s.update(k, t)[i]) by { if i != k { assert(s.update(k, t)[i] == s[i]); } }
+}
+proof fn lemma_done_step(pos: Option<Rc<Conjunction>>, p: Option<Rc<Conjunction>>, q: Option<Rc<Conjunction>>, a: Atom)
+    requires split_ok(pos, p), chain_atoms(p) == seq![a] + chain_atoms(q)
+    ensures split_ok(pos, q), done_atoms(pos, q) == done_atoms(pos, p).push(a)
+{
+    let c = chain_atoms(pos);
+    let dp = done_atoms(pos, p);
+    assert(chain_atoms(p).len() == chain_atoms(q).len() + 1);
+    assert(c =~= dp.push(a) + chain_atoms(q));
+    assert(done_atoms(pos, q) =~= dp.push(a));
+}
+
+// ---- the transitions of the fold, one lemma each (the predicates are opaque in the function body)
+pub proof fn lemma_fold_none(defs: Defs, pre: Seq<Rc<SemType>>, items: Rc<SemType>)
+    requires pre.len() == 0, items.all == 0x3ffeu32, items.subtype_data@.len() == 0
+    ensures fold_ok(defs, Seq::empty(), pre, items)
+{
+    reveal(fold_ok);
+    broadcast use {lemma_unknown_is_everything, lemma_bits_only_wf, lemma_bits_only_flat};
+    lemma_val_in_val();
+    assert(wf(*items));
+    assert(flat(*items));
+    assert forall|v: Val| #[trigger] mem(*items, v) == rest_mem(defs, Seq::empty(), v) by { lemma_unknown_is_everything(*items, v); }
+}
+pub proof fn lemma_fold_first(defs: Defs, a: Atom, ltr: Rc<ListAtomic>)
+    requires *ltr == lt_of(defs, a), lt_good(*ltr)
+    ensures fold_ok(defs, Seq::<Atom>::empty().push(a), ltr.prefix_items@, ltr.items)
+{
+    let lt = lt_of(defs, a);
+    reveal(fold_ok);
+    let atoms = Seq::<Atom>::empty().push(a);
+    lemma_max_len_push(defs, Seq::empty(), a);
+    assert forall|j: int, v: Val| 0 <= j < lt.prefix_items@.len() implies #[trigger] mem(*lt.prefix_items@[j], v) == items_mem(defs, atoms, j, v) by {
+        lemma_items_mem_push(defs, Seq::empty(), a, j, v);
+    }
+    assert forall|v: Val| #[trigger] mem(*lt.items, v) == rest_mem(defs, atoms, v) by {
+        lemma_rest_mem_push(defs, Seq::empty(), a, v);
+    }
+}
+pub proof fn lemma_fold_start_atom(defs: Defs, atoms: Seq<Atom>, pre: Seq<Rc<SemType>>, items: Rc<SemType>, d: Atom)
+    requires fold_ok(defs, atoms, pre, items)
+    ensures pre_sem(defs, atoms, pre, 0, d), goods(pre), good(items), pre.len() == max_len(defs, atoms)
+{
+    reveal(fold_ok);
+    reveal(pre_sem);
+}
+pub proof fn lemma_fold_pad(defs: Defs, atoms: Seq<Atom>, pre0: Seq<Rc<SemType>>, pre: Seq<Rc<SemType>>, items: Rc<SemType>, d: Atom)
+    requires fold_ok(defs, atoms, pre0, items), pre.len() >= max_len(defs, atoms), pre_sem(defs, atoms, pre, 0, d), goods(pre)
+    ensures pre_sem(defs, atoms, pre.push(items), 0, d), goods(pre.push(items))
+{
+    reveal(fold_ok);
+    reveal(pre_sem);
+    let p2 = pre.push(items);
+    lemma_goods_push(pre, items);
+    assert forall|j: int, v: Val| 0 <= j < p2.len() implies #[trigger] mem(*p2[j], v)
+        == (items_mem(defs, atoms, j, v) && (j < 0 ==> mem(*item_at(lt_of(defs, d), j), v))) by {
+        if j < pre.len() { assert(p2[j] == pre[j]); } else { assert(p2[j] == items); lemma_items_beyond(defs, atoms, j, v); }
+    }
+}
+pub proof fn lemma_fold_update(defs: Defs, atoms: Seq<Atom>, pre: Seq<Rc<SemType>>, d: Atom, i: int, t: Rc<SemType>)
+    requires pre_sem(defs, atoms, pre, i, d), goods(pre), 0 <= i < pre.len(), good(t),
+        forall|v: Val| #[trigger] mem(*t, v) == (mem(*pre[i], v) && mem(*item_at(lt_of(defs, d), i), v)),
+    ensures pre_sem(defs, atoms, pre.update(i, t), i + 1, d), goods(pre.update(i, t))
+{
+    reveal(pre_sem);
+    let p2 = pre.update(i, t);
+    lemma_goods_update(pre, i, t);
+    assert forall|j: int, v: Val| 0 <= j < p2.len() implies #[trigger] mem(*p2[j], v)
+        == (items_mem(defs, atoms, j, v) && (j < i + 1 ==> mem(*item_at(lt_of(defs, d), j), v))) by {
+        if j == i { assert(p2[j] == t); assert(mem(*pre[i], v) == (items_mem(defs, atoms, i, v) && (i < i ==> mem(*item_at(lt_of(defs, d), i), v)))); }
+        else { assert(p2[j] == pre[j]); assert(mem(*pre[j], v) == (items_mem(defs, atoms, j, v) && (j < i ==> mem(*item_at(lt_of(defs, d), j), v)))); }
+    }
+}
+pub proof fn lemma_fold_finish(defs: Defs, atoms: Seq<Atom>, pre0: Seq<Rc<SemType>>, pre: Seq<Rc<SemType>>, items: Rc<SemType>, items2: Rc<SemType>, d: Atom)
+    requires fold_ok(defs, atoms, pre0, items), pre_sem(defs, atoms, pre, pre.len() as int, d), goods(pre), good(items2),
+        pre.len() == (if lt_of(defs, d).prefix_items@.len() > max_len(defs, atoms) { lt_of(defs, d).prefix_items@.len() } else { max_len(defs, atoms) }),
+        forall|v: Val| #[trigger] mem(*items2, v) == (mem(*items, v) && mem(*lt_of(defs, d).items, v)),
+    ensures fold_ok(defs, atoms.push(d), pre, items2)
+{
+    reveal(fold_ok);
+    reveal(pre_sem);
+    lemma_max_len_push(defs, atoms, d);
+    assert forall|j: int, v: Val| 0 <= j < pre.len() implies #[trigger] mem(*pre[j], v) == items_mem(defs, atoms.push(d), j, v) by {
+        lemma_items_mem_push(defs, atoms, d, j, v);
+        assert(mem(*pre[j], v) == (items_mem(defs, atoms, j, v) && (j < pre.len() ==> mem(*item_at(lt_of(defs, d), j), v))));
+    }
+    assert forall|v: Val| #[trigger] mem(*items2, v) == rest_mem(defs, atoms.push(d), v) by {
+        lemma_rest_mem_push(defs, atoms, d, v);
+    }
+}
+proof fn lemma_done_first(pos: Option<Rc<Conjunction>>, p: Option<Rc<Conjunction>>, a: Atom)
+    requires chain_atoms(pos) == seq![a] + chain_atoms(p)
+    ensures split_ok(pos, p), done_atoms(pos, p) == Seq::<Atom>::empty().push(a)
+{
+    assert(done_atoms(pos, p) =~= Seq::<Atom>::empty().push(a));
+    assert(chain_atoms(pos) =~= done_atoms(pos, p) + chain_atoms(p));
+}
+proof fn lemma_done_all(pos: Option<Rc<Conjunction>>)
+    ensures done_atoms(pos, None) == chain_atoms(pos), split_ok(pos, None)
+{
+    assert(chain_atoms(None) =~= Seq::<Atom>::empty());
+    assert(done_atoms(pos, None) =~= chain_atoms(pos));
+    assert(chain_atoms(pos) =~= done_atoms(pos, None) + chain_atoms(None));
+}
